@@ -90,8 +90,10 @@ class AbstractSourceSinkGraph(nx.DiGraph):
             if self.base_graph.out_degree(u) == 0 or u in self.additional_ends:
                 self.add_edge(u, self.sink)
 
-        self.source_edges = list(self.out_edges(self.source))
-        self.sink_edges = list(self.in_edges(self.sink))
+        # If no edge was attached, the global source / sink is not a node of the graph; networkx would then interpret
+        # the identifier string as an iterable of single-character node names
+        self.source_edges = list(self.out_edges(self.source)) if self.has_node(self.source) else []
+        self.sink_edges = list(self.in_edges(self.sink)) if self.has_node(self.sink) else []
         self.source_sink_edges = set(self.source_edges + self.sink_edges)
 
     # ----------------------- Shared helper methods -----------------------
